@@ -1,6 +1,7 @@
 //! C03 — the scanner's best hit is a maximum-scoring position that meets the threshold.
 //!
-//! case:   c03 <dev|release> <arm> <block> <threshold f32 bits> <k> <M> <5·M f32 bit patterns> <W> <L> <L symbols>
+//! case:   c03 <dev|release> <arm> <block> <threshold f32 bits> <k> <M> <5·M f32 bit patterns> <W> <L> <L symbols> [H <h>…]
+//!         (H …: the configure history of the sequence object before `configure_wrap(W)`, see c02.rs)
 //!         the scanner is asked `next()` k times (stopping at the first None), then `max()`
 //! answer: ret <n> <position:score-bits of the hits returned by next, sorted by position> | max <position:score-bits | none>
 //!         or panic
@@ -9,8 +10,8 @@
 //! score(i) the f32 sum in the order of `score_position`; the hits returned by `next` are distinct
 //! members of Q; `max()` is None exactly when Q minus the returned hits is empty, and otherwise a
 //! member of it whose score equals the maximum score over it.  No panic.
-use crate::c02::{gen_block_len, gen_threshold, in_contract, parse, qualifying, Case, BLOCKS};
-use crate::c08::{bits, build_pssm, build_seq, gen_matrix, gen_seq, profile, scalar_score};
+use crate::c02::{build_seq_hist, used_buffer, gen_block_len, gen_history, gen_threshold, in_contract, parse, qualifying, Case, BLOCKS};
+use crate::c08::{bits, build_pssm, gen_matrix, gen_seq, profile, scalar_score};
 use crate::out::*;
 use crate::rng::Rng;
 use crate::Cfg;
@@ -21,10 +22,16 @@ use lightmotif::scan::Scanner;
 
 fn run_impl(c: &Case) -> Result<(Vec<(usize, u32)>, Option<(usize, u32)>), ()> {
     let pssm = build_pssm::<Dna>(c.m, &c.vals);
-    let st = build_seq::<Dna>(&c.syms, c.w);
+    // (the scans of the history are judged in C02; here the history only shapes the sequence object)
+    let (st, _) = build_seq_hist(c);
+    // a share of the scanners gets a caller-provided, previously used score buffer (`Scanner::scores`)
+    let mut used = if (c.syms.len() + c.k + c.block) % 3 == 0 { Some(used_buffer(c)) } else { None };
     assert!(verif::force_backend(&c.arm));
     let r = guarded(|| {
         let mut sc = Scanner::new(&pssm, &st);
+        if let Some(b) = used.as_mut() {
+            sc.scores(b);
+        }
         sc.threshold(c.thr);
         sc.block_size(c.block);
         let mut ret: Vec<Hit> = Vec::new();
@@ -70,7 +77,7 @@ pub fn exec(line: &str) -> (String, Option<Result<(), String>>, bool) {
     let npos = (c.syms.len() + 1).saturating_sub(c.m);
     let nontrivial = !q.is_empty() && q.len() < npos && rows > c.block;
     let verdict = match &r {
-        Err(()) => Err(format!("the scanner panics (L={} M={} rows={} wrap={} block={} threshold={} k={})", c.syms.len(), c.m, rows, c.w, c.block, c.thr, c.k)),
+        Err(()) => Err(format!("the scanner panics (L={} M={} rows={} wrap={} block={} threshold={} k={})", c.syms.len(), c.m, rows, c.wrap(), c.block, c.thr, c.k)),
         Ok((ret, best)) => (|| {
             let mut seen = std::collections::BTreeSet::new();
             for (p, s) in ret {
@@ -163,6 +170,7 @@ fn gen_near_tie(rng: &mut Rng) -> Option<(usize, Vec<f32>, Vec<usize>)> {
 
 pub fn generate(cfg: &Cfg) -> Vec<String> {
     let mut rng = Rng::new(cfg.seed ^ 0xC03);
+    let mut hrng = Rng::new(cfg.seed ^ 0xC03_0100);
     let mut cases = Vec::new();
     let prof = profile();
     let arms = ["generic", "sse2", "avx2"];
@@ -175,7 +183,8 @@ pub fn generate(cfg: &Cfg) -> Vec<String> {
                 let thr = if rng.chance(1, 2) { gen_threshold(&mut rng, &vals, m, &syms) } else { -1.0e30 };
                 for block in [1usize, *rng.pick(&[2usize, 3, 7]), 256] {
                     let k = if rng.chance(2, 3) { 0 } else { rng.range(1, 3) };
-                    cases.push(format!("c03 {} {} {} {} {} {} {} {} {} {}", prof, arm, block, thr.to_bits(), k, m, bits(&vals), m - 1, syms.len(), join(syms.iter())));
+                    let hist = if hrng.chance(1, 3) { gen_history(&mut hrng, m, m - 1) } else { String::new() };
+                    cases.push(format!("c03 {} {} {} {} {} {} {} {} {} {}{}", prof, arm, block, thr.to_bits(), k, m, bits(&vals), m - 1, syms.len(), join(syms.iter()), hist));
                 }
                 continue;
             }
@@ -195,7 +204,8 @@ pub fn generate(cfg: &Cfg) -> Vec<String> {
             1 if m > 1 => rng.range(0, m - 2),
             _ => m - 1,
         };
-        let body = format!("{} {} {} {} {}", m, bits(&vals), w, l, join(syms.iter()));
+        let hist = if n % 3 == 1 { gen_history(&mut hrng, m, w) } else { String::new() };
+        let body = format!("{} {} {} {} {}{}", m, bits(&vals), w, l, join(syms.iter()), hist);
         if n % 5 == 0 {
             // all small k on one input
             for k in 0..=4 {
@@ -229,6 +239,12 @@ pub fn run(cfg: &Cfg) {
         out.stat(&format!("k/{}", if t[5].len() > 1 { "10+" } else { t[5] }));
         if o.is_none() {
             out.stat("out-of-contract(wrap<M-1)");
+        }
+        if let Some(h) = c.split(" H ").nth(1) {
+            out.stat("history/any");
+            for x in h.split(' ') {
+                out.stat(&format!("history/{}", &x[..1]));
+            }
         }
         if ans == "panic" {
             out.panics += 1;
